@@ -208,6 +208,15 @@ def apply(par, o: dict, tokens: list, variant: int = 0):
         else:
             par.set_reference_mark(_fresh("rm5", par), content=el)
         return par
+    if op == "mark_first_child":
+        el = par if o["i"] == 0 else nth_element(par, tokens, o["i"])
+        if variant % 2 == 1:
+            par.insert_annotation(body="remark", creator="verif", after=el)
+        elif o["i"] == 0 and variant % 4 == 0:
+            par.insert_note(note_id="note2", citation="2", body="a note")          # no address: first child of the paragraph
+        else:
+            par.insert_note(after=el, note_id="note2", citation="2", body="a note")
+        return par
     if op == "mark_range":
         pos = (o["a"], o["b"])
         # (an annotation only as the last operation on a paragraph: once it is there, the offsets of later calls
